@@ -13,7 +13,9 @@ def _part(name, cc, opt, tiers):
     # -g0: the generated shards are large (thorough: 16 MB each); at -O1 gcc needs minutes per thorough shard, so the
     # thorough tier compiles at -O0 with both compilers and the quick tier at -O1 with gcc
     return dict(name=name, cc=cc, src=['harness/c08_protothreads.c'], workers=16, prebuild=_gen, tiers=tiers,
-                objs=[('@BUILD@/c08_progs_%d.c' % i, [opt, '-g0', '-w', '-I@VERIF@/harness']) for i in range(SHARDS)],
+                objs=[('@BUILD@/c08_progs_%d.c' % i, [opt, '-g0', '-w', '-I@VERIF@/harness']) for i in range(SHARDS)] +
+                     [('@BUILD@/c08_progs_%d.c' % i, [opt, '-g0', '-w', '-I@VERIF@/harness'], '@BUILD@/c08_progs_%d_empty.c' % i,
+                       'the programs with an unbraced "if (c) PT_x(); else PT_y();"') for i in range(SHARDS, SHARDS + 2)],
                 deadline=dict(quick=200, thorough=2400))
 
 CHECK = dict(
@@ -21,12 +23,12 @@ CHECK = dict(
     parts=[_part('c08', 'gcc', '-O1', ('quick',)), _part('c08gcc', 'gcc', '-O0', ('thorough',)), _part('c08clang', 'clang', '-O0', ('thorough',))],
     rule='every protothread body with at most N statements (yield, wait, wait_until, exit, fail, exit_on, fail_on, PT_SPAWN / '
          'PT_SPAWN_AND_CHECK / PT_CALL / PT_SPAWN+PT_CHILD_OK of six fixed children two of which spawn children themselves, '
-         'if/else and for-loops over persistent variables nested up to 2 deep) is generated at build time as C using the real PT_* '
+         'if/else and for-loops over persistent variables nested up to 2 deep, and the unbraced forms "if (c) PT_x();", "if (c) PT_x(); else PT_y();", "for (...) PT_x();") is generated at build time as C using the real PT_* '
          'macros of the current protothreads.h and compiled; for every program every environment-answer script with at most D '
          'departures from "true" is enumerated (DFS over consumed positions) and the function is invoked until it exits, then '
          'restarted after PT_INIT; each invocation is compared (return code, side effects, conditions evaluated, loop variables) '
-         'with an interpreter of a flat instruction table generated from the same AST; distinct = distinct (return codes, effects) '
-         'traces, counted with a hash set',
+         'with an interpreter of a flat instruction table generated from the same AST; distinct = distinct (program, sequence of return codes and effects) '
+         'pairs, counted with a hash set',
     bounds=dict(quick='N = 3 statements (about 60 000 programs; exit_on/fail_on also with a double-typed condition), D = 3 departures, gcc',
                 thorough='N = 3 over the full alphabet plus N = 4 over a reduced alphabet of 8 statement kinds, D = 4 departures, compiled with gcc and with clang'),
     assumptions=['scope of the quantifier: one PT_* blocking macro per source line, none inside a nested switch, PT_CHILD_OK consulted '
